@@ -84,6 +84,33 @@ func sepOK(keys []string, out *sink) {
 	}
 }
 
+// mutateWitness: writes through its input at depth (C12.E): a nested map of the input is updated.
+func mutateWitness(in map[string]interface{}) map[string]interface{} {
+	out := map[string]interface{}{}
+	for k, v := range in {
+		out[k] = v
+	}
+	if inner, ok := out["a"].(map[string]interface{}); ok {
+		inner["x"] = 1
+	}
+	return out
+}
+
+// appendWitness: appends to a slice taken from the input (may write the caller's backing array).
+func appendWitness(in [][]string) []string {
+	first := in[0]
+	return append(first, "x")
+}
+
+// copyOK: builds a fresh value from the input without writing through it — must stay silent.
+func copyOK(in map[string][]string) map[string][]string {
+	out := map[string][]string{}
+	for k, v := range in {
+		out[k] = append([]string{}, v...)
+	}
+	return out
+}
+
 // mapOrderWitness: result depends on map iteration order (C17.D1).
 func mapOrderWitness(m map[string]int) []string {
 	var out []string
